@@ -167,8 +167,14 @@ pub fn instantiate_response_address(data: &[u8]) -> Option<String> {
     String::from_utf8(data.get(i..i + len)?.to_vec()).ok()
 }
 
+thread_local! {
+    /// bech32 prefix of the App the current thread is working on (Apps with different prefixes are
+    /// interleaved by the determinism check)
+    pub static PREFIX: std::cell::Cell<&'static str> = const { std::cell::Cell::new("cosmwasm") };
+}
+
 pub fn api() -> MockApi {
-    MockApi::default()
+    MockApi::default().with_prefix(PREFIX.with(|p| p.get()))
 }
 
 pub fn classic_address(code_id: u64, instance_id: u64) -> String {
